@@ -281,6 +281,10 @@ func checkEq(c *sim.Ctx, d *sqlittle.DB, t *sq.Table, ix *sq.Index, key []sq.Val
 		c.Fail("eq-mismatch", "eq-mismatch:"+feature, fmt.Sprintf("%s: %d rows, SQLite's comparison rules give %d (first difference at %d: want %s got %s)", op.String(), len(r.Rows), len(want), at, fmtRows(want, at), fmtRows(r.Rows, at)), detail)
 		return
 	}
+	if len(key) > 0 {
+		last := len(key) - 1
+		c.State(op.Kind, len(key), fmt.Sprintf("%T", key[last]), strings.ToLower(ix.XInfo[last].Coll), ix.XInfo[last].Desc, min(len(want), 2), t.WithoutRowid)
+	}
 	if len(want) > 0 {
 		c.Nontrivial = true
 		c.Probe("eq-key-with-matches")
@@ -489,6 +493,7 @@ func c04Check(c *sim.Ctx, w *world.World) {
 				}
 				r := ops.Run(fresh, op, nil)
 				c.Eval(1)
+				c.State(kind, ok, rid < 0, rid == 0, rid > 1<<40 || rid < -(1<<40), u)
 				detail := map[string]interface{}{"op": op.String(), "present": ok}
 				if r.Panic != nil {
 					c.Fail("panic", "panic:"+kind, fmt.Sprintf("%s panicked: %v", op.String(), r.Panic), detail)
